@@ -4,6 +4,11 @@ Correspondence: generated overload families are registered on real `Context` cha
 real decorators and `get_function_definition`), the REAL FunctionDefinition objects are serialised to
 the Lean model `Yaql.Resolve.resolve`, and generated calls go to `runner.call` and to the model:
 same overload / error class, same ordered evaluation log, same bound argument vector.
+Call histories: forests of live contexts on which overloads are registered and deleted step by step
+(same / ancestor / descendant / sibling contexts, exclusive or not), children are created and calls are made
+in between from old and new contexts; every call is compared with the rules and with the Lean model
+(`Yaql.ResolveCtx.run` / `resolveIn`, the C17 context model joined with `Resolve`) applied to the
+family AS REGISTERED AT THAT MOMENT, which the harness records from its own API calls.
 Oracle (real code alone): `resolvelib.spec_resolve`, an independent transcription of
 doc/source/extending_yaql.rst "Function resolution rules" + "single most specific match"."""
 import copy
@@ -14,14 +19,19 @@ import resolvegen
 import resolvelib as rl
 
 ID = 'C05'
-LEAN_MODULES = ['Yaql.Props.C05']
+LEAN_MODULES = ['Yaql.Props.C05', 'Yaql.Props.C05Hist']
 P = 'Yaql.Props.C05.'
 REQUIRED_THEOREMS = [P + n for n in (
     'resolve_eq_spec', 'unknown_iff', 'first_layer_wins', 'most_specific', 'no_matching_iff', 'kind_filter',
-    'constants_prechecked', 'hidden_transparent', 'skipped_needs_default', 'star_absorbs')]
+    'constants_prechecked', 'hidden_transparent', 'skipped_needs_default', 'star_absorbs')] + [
+    'Yaql.Props.C05Hist.' + n for n in (
+        'collectAtP_refines', 'resolveAt_eq_layers', 'resolveIn_eq', 'resolveIn_eq_spec', 'resolve_history_independent',
+        'register_elsewhere_invisible', 'delete_elsewhere_invisible', 'family_plain')]
 TRUSTED = ['python dict/set semantics modelled as association lists',
            'resolvelib.enc_fd / enc_arg: the encoding of real FunctionDefinition and expression objects for the model',
-           'resolvelib.spec_resolve: transcription of the written rules']
+           'resolvelib.spec_resolve: transcription of the written rules',
+           'resolvelib.History: the record of what register_function / delete_function / create_child_context were told '
+           '(delete_function drops the overload and the exclusive flag of its name, as Context does - DESIGN.md K4)']
 ASSUMPTIONS = ['smart types outside the closed description (AnyOf, Chain, NotOfType, Super, Delegate converters) are not '
                'generated; yaql.iterableDicts is off',
                'argument expressions are probes that cannot raise',
@@ -63,39 +73,193 @@ HAND = [
 ]
 
 
-def compare(fam, call, model):
-    """-> list of (kind, key, message)"""
+def judge(real, exp, model, fds, pre='', where=''):
+    """real outcome against the rules (`exp`, overload given by id) and against the model -> [(kind, key, message)]"""
     out = []
-    real = rl.run_real(fam, call)
     if 'delegate_error' in real:
         # resolution succeeded; converting the arguments / calling the payload raised (e.g. a keyword that
         # `**` captured under the python name of an aliased parameter): not a resolution outcome
-        return out, real
-    exp = rl.spec_resolve(fam, call)
-    exp_id = None
-    if 'id' in exp:
-        exp_id = [i for i, fd in fam.fds.items() if fd is exp['id']][0]
+        return out
     r_out = real.get('err', real.get('id'))
-    e_out = exp.get('err', exp_id)
+    e_out = exp.get('err', exp.get('id'))
     if r_out != e_out:
-        out.append(('oracle', 'resolution',
-                    'real outcome %r, the written rules give %r' % (r_out, e_out)))
+        out.append(('oracle', pre + 'resolution',
+                    '%sreal outcome %r, the written rules give %r' % (where, r_out, e_out)))
     elif real['log'] != exp['log']:
-        out.append(('oracle', 'evaluation-log', 'real evaluation log %r, rules give %r (outcome %r)' % (
-            real['log'], exp['log'], r_out)))
+        out.append(('oracle', pre + 'evaluation-log', '%sreal evaluation log %r, rules give %r (outcome %r)' % (
+            where, real['log'], exp['log'], r_out)))
     if model is not None:
         m_out = model.get('err', model.get('id'))
         mlog = [p for p in model['log'] if p < rl.SILENT]
         if m_out != r_out:
-            out.append(('mismatch', 'resolution', 'real outcome %r, model %r' % (r_out, m_out)))
+            out.append(('mismatch', pre + 'resolution', '%sreal outcome %r, model %r' % (where, r_out, m_out)))
         elif mlog != real['log']:
-            out.append(('mismatch', 'evaluation-log', 'real log %r, model log %r' % (real['log'], mlog)))
+            out.append(('mismatch', pre + 'evaluation-log', '%sreal log %r, model log %r' % (
+                where, real['log'], mlog)))
         elif 'id' in real:
-            mb = rl.model_bound(fam.fds[real['id']], model)
+            mb = rl.model_bound(fds[real['id']], model)
             if mb != real['bound']:
-                out.append(('mismatch', 'bound-vector', 'overload %d bound: real %r model %r' % (
-                    real['id'], real['bound'], mb)))
-    return out, real
+                out.append(('mismatch', pre + 'bound-vector', '%soverload %d bound: real %r model %r' % (
+                    where, real['id'], real['bound'], mb)))
+    return out
+
+
+def compare(fam, call, model):
+    """-> list of (kind, key, message)"""
+    real = rl.run_real(fam, call)
+    if 'delegate_error' in real:
+        return [], real
+    exp = rl.spec_resolve(fam, call)
+    if 'id' in exp:
+        exp['id'] = [i for i, fd in fam.fds.items() if fd is exp['id']][0]
+    return judge(real, exp, model, fam.fds), real
+
+
+# ---------------------------------------------------------------- call histories on live contexts
+
+def play(hspec):
+    """runs the history on real contexts -> (History, [(step index, step, real outcome, rules' outcome)])"""
+    h = rl.History(hspec['defs'])
+    recs = []
+    for k, st in enumerate(hspec['steps']):
+        if st[0] == 'call':
+            real, exp = h.call(st, rl.BuiltCall(st[2]))
+            recs.append((k, st, real, exp))
+        else:
+            h.do(st)
+    return h, recs
+
+
+def ask_histories(drv, hs):
+    if not drv:
+        return None
+    return drv.ask(dict(p='Resolve', op='hist', lat=rl.T.lattice(), hists=[h.enc() for h in hs]))['out']
+
+
+def judge_history(hspec, h, recs, models):
+    """-> [(kind, key, message)]: every call against the family AS IT IS AT THAT MOMENT"""
+    out = []
+    for ci, (k, st, real, exp) in enumerate(recs):
+        where = 'step %d (%s(..) from context %d, after %s): ' % (
+            k, st[3], st[1], ' '.join('%s%s' % (x[0], x[1:3] if x[0] != 'call' else [x[1]])
+                                      for x in hspec['steps'][max(0, k - 4):k]) or 'nothing')
+        out += judge(real, exp, models[ci] if models is not None else None, h.fds, 'history-', where)
+    return out
+
+
+def run_history(hspec, drv):
+    h, recs = play(hspec)
+    models = ask_histories(drv, [h])
+    return judge_history(hspec, h, recs, models[0] if models else None), recs
+
+
+def shrink_history(hspec, drv, kind, key):
+    def fails(c):
+        try:
+            fs, _ = run_history(c, drv)
+        except Exception:
+            return False
+        return any(f[0] == kind and f[1] == key for f in fs)
+
+    def used(c):
+        return {st[2] for st in c['steps'] if st[0] in ('reg', 'del')}
+    changed = True
+    while changed:
+        changed = False
+        cands = []
+        steps = hspec['steps']
+        for k in range(len(steps) - 1, -1, -1):
+            if steps[k][0] in ('reg', 'del', 'call'):
+                c = copy.deepcopy(hspec)
+                del c['steps'][k]
+                cands.append(c)
+            elif steps[k][0] == 'child':
+                # a context nobody mentions later can go when it is the last one created
+                idx = sum(1 for s in steps[:k] if s[0] in ('root', 'child'))
+                later = [s for s in steps[k + 1:]]
+                if not any(s[0] in ('root', 'child') for s in later) and not any(s[1] == idx for s in later):
+                    c = copy.deepcopy(hspec)
+                    del c['steps'][k]
+                    cands.append(c)
+        for k, st in enumerate(steps):
+            if st[0] == 'reg' and st[3]:
+                c = copy.deepcopy(hspec)
+                c['steps'][k][3] = False
+                cands.append(c)
+            if st[0] == 'call':
+                for ai in range(len(st[2]['args'])):
+                    c = copy.deepcopy(hspec)
+                    del c['steps'][k][2]['args'][ai]
+                    cands.append(c)
+                for ki in range(len(st[2].get('kw', []))):
+                    c = copy.deepcopy(hspec)
+                    del c['steps'][k][2]['kw'][ki]
+                    cands.append(c)
+        for f, o in hspec['defs'].items():
+            if int(f) not in used(hspec):
+                c = copy.deepcopy(hspec)
+                del c['defs'][f]
+                cands.append(c)
+                continue
+            for pi in range(len(o['params'])):
+                c = copy.deepcopy(hspec)
+                del c['defs'][f]['params'][pi]
+                cands.append(c)
+        for c in cands:
+            if fails(c):
+                hspec = c
+                changed = True
+                break
+    return hspec
+
+
+def history_features(hspec, recs, hist):
+    def bump(k, n=1):
+        hist[k] = hist.get(k, 0) + n
+    steps = hspec['steps']
+    bump('hist:style:' + hspec.get('style', '?'))
+    bump('hist:contexts:%d' % sum(1 for s in steps if s[0] in ('root', 'child')))
+    for s in steps:
+        bump('hist:step:' + s[0] + (':exclusive' if s[0] == 'reg' and s[3] else ''))
+    par = []
+    for s in steps:
+        if s[0] == 'root':
+            par.append(None)
+        elif s[0] == 'child':
+            par.append(s[1])
+
+    def ancestors(i):
+        out = []
+        while par[i] is not None:
+            i = par[i]
+            out.append(i)
+        return out
+    # the shapes a remembered lookup would get wrong: a call, then a change in a strict ancestor / in the
+    # context itself / in a descendant, then a call from the same context or below
+    seen_calls = []
+    changed = []
+    for k, s in enumerate(steps):
+        if s[0] == 'call':
+            hit = None
+            for (k0, i0, name0) in seen_calls:
+                if s[3] == name0 and (s[1] == i0 or i0 in ancestors(s[1])):
+                    for (kj, j, namej, what) in changed:
+                        if kj > k0 and namej == name0 and j in ancestors(i0):
+                            hit = what
+            if hit:
+                bump('hist:call-change-in-ancestor-call:' + hit)
+            seen_calls.append((k, s[1], s[3]))
+        elif s[0] in ('reg', 'del') and seen_calls:
+            changed.append((k, s[1], hspec['defs'][str(s[2])].get('fname', 'f'), s[0]))
+    prev = {}
+    for k, st, real, exp in recs:
+        bump('hist:outcome:' + str(real.get('err', 'delegate-raised' if 'delegate_error' in real else 'chosen')))
+        bump('hist:matches:%s' % min(exp.get('nmatch', 0), 3))
+        key = (st[1], st[3], json.dumps(st[2], sort_keys=True))
+        out = real.get('err', real.get('id'))
+        if key in prev and prev[key] != out:
+            bump('hist:same-call-new-outcome')
+        prev[key] = out
 
 
 def run_case(case, drv):
@@ -184,15 +348,29 @@ def features(case, real, hist):
 def run(env, res):
     drv = env['driver']
     rng = common.make_rng(env['seed'], 'C05')
-    n_fam = 12000 if env["tier"] == "quick" else 150000
+    n_fam = 12000 if env["tier"] == "quick" else 110000
     res.rule = ('random overload families (1-4 layers, 0-4 overloads per layer, parameters positional/defaulted/keyword-only/'
                 '*/**/hidden/lazy/constant over the lattice Base>L,R>D + int/str/object/NoneType) with 3 calls each derived '
                 'from a random overload\'s signature and mutated; distinct = distinct (family, call); non-trivial = '
                 'at least two overloads and the outcome is not Unknown')
     hist = {}
+    n_hist = 4500 if env["tier"] == "quick" else 45000
+    res.rule += ('; plus call histories on live Context forests (1-7 contexts): overloads of a pool of 2-6 are registered '
+                 'step by step (same / ancestor / descendant / sibling contexts, some exclusively, some twice), deleted '
+                 'with delete_function, children are created before and after, and calls - new ones and repeated '
+                 'earlier ones - are made in between from old and new contexts; every call is compared with the rules '
+                 'and the model applied to the family AS REGISTERED AT THAT MOMENT (the harness\'s own record of the API '
+                 'calls); distinct = distinct history')
     if env['replay']:
         rp = json.load(open(env['replay']))
         cases = [rp['case']]
+        if 'steps' in rp['case']:
+            fs, recs = run_history(rp['case'], drv)
+            res.case(common.digest(rp['case']), True, sample=rp['case'])
+            res.traces += len(recs)
+            for kind, key, msg in fs:
+                res.fail(kind, key, msg, rp['case'])
+            return res
         for case in cases:
             fs, real, fam = run_case(case, drv)
             res.case(common.digest(case), True, sample=case)
@@ -252,17 +430,68 @@ def run(env, res):
         if len(res.failures) >= 12:
             break
     flush()
+
+    # ---- call histories
+    hbatch = []
+
+    def hflush():
+        if not hbatch:
+            return
+        models = ask_histories(drv, [h for _, h, _ in hbatch])
+        for bi, (hspec, h, recs) in enumerate(hbatch):
+            fs = judge_history(hspec, h, recs, models[bi] if models else None)
+            ncalls = len(recs)
+            res.case(common.digest(hspec), ncalls >= 2 and any(r[2].get('err') != 'Unknown' for r in recs),
+                     sample=hspec if bi == 0 and hist.get('hist:sampled') is None else None)
+            hist['hist:sampled'] = 1
+            res.traces += ncalls if models else 0
+            history_features(hspec, recs, hist)
+            done = set()
+            for kind, key, msg in fs:
+                if (kind, key) in done:
+                    continue
+                done.add((kind, key))
+                if sum(1 for f in res.failures if str(f.key).startswith('history-')) < 4:
+                    small = shrink_history(hspec, drv, kind, key)
+                    fs2, _ = run_history(small, drv)
+                    msg2 = next((m for k, ky, m in fs2 if k == kind and ky == key), msg)
+                    res.fail(kind, key, msg2, small)
+                else:
+                    res.fail(kind, key, msg, hspec)
+        del hbatch[:]
+
+    nfail0 = len(res.failures)
+    for k in range(n_hist):
+        hspec = resolvegen.gen_history(rng)
+        try:
+            h, recs = play(hspec)
+        except rl.Unsupported:
+            continue
+        hbatch.append((hspec, h, recs))
+        if len(hbatch) >= 150:
+            hflush()
+        if len(res.failures) - nfail0 >= 8:
+            break
+    hflush()
+    hist.pop('hist:sampled', None)
     res.extra['histogram'] = hist
     return res
 
 
 LEVEL_TEXT = ('Lean 4 theorems over a code-shaped model of runner.call/choose_overload/translate_args and '
               'FunctionDefinition.map_args/get_delegate: for EVERY class graph, overload family, layer chain and call the '
-              'model equals the rule-shaped specification resolveSpec (resolve_eq_spec) and its corollaries. The model is '
-              'tied to the code by running generated families on real Context chains and on the compiled model (the real '
-              'FunctionDefinition objects are what is serialised), comparing chosen overload / error class, evaluation '
-              'log and bound argument vector, and by an independent Python transcription of the written rules.')
-LEVEL_NOTE = ('trusted: Lean kernel; hand-written models Yaql/Model/Types.lean and Resolve.lean; the encoder of real '
-              'objects; the differential harness and the rules transcription. All theorems are unconditional.')
-TECHNIQUE = 'Lean 4 proof (induction over candidate lists / parameter lists) + differential testing against runner.call'
+              'model equals the rule-shaped specification resolveSpec (resolve_eq_spec) and its corollaries; on LIVE contexts '
+              '(C05Hist): a call made at any moment of any history of register_function / delete_function / '
+              'create_child_context operations resolves as the rules prescribe for the family the context chain denotes at '
+              'that moment (resolveIn_eq_spec, via C17 layers), two histories that end in the same visible family give the '
+              'same outcome (resolve_history_independent), and registrations / deletions outside the chain are invisible. '
+              'The model is tied to the code by running generated families and generated call histories on real Context '
+              'chains and on the compiled model (the real FunctionDefinition objects are what is serialised), comparing '
+              'chosen overload / error class, evaluation log and bound argument vector, and by an independent Python '
+              'transcription of the written rules.')
+LEVEL_NOTE = ('trusted: Lean kernel; hand-written models Yaql/Model/Types.lean, Resolve.lean, Context.lean, ResolveCtx.lean; '
+              'the encoder of real objects; the differential harness, its record of the registrations and the rules '
+              'transcription. All theorems are unconditional.')
+TECHNIQUE = ('Lean 4 proof (induction over candidate lists / parameter lists / context shapes) + differential testing '
+             'against runner.call, including stepwise call histories')
 DESIGN_REF = 'DESIGN.md section 5, C05'
